@@ -136,7 +136,7 @@ Expected(w) ==
     [] w = "assign_strtable" -> {"ValueError", "TypeError", "KeyError"}
     [] w \in {"resize_huge", "resize_wrap"} -> {"OutOfMemoryError"}          \* a reservation that cannot be had: refused, nothing changes
     [] w \in {"refuse_push", "refuse_pushat", "refuse_set"} -> {"ValueError"}     \* the element type's own Assign refuses the value
-    [] w \in {"stack_push", "stack_pushat", "stack_pop", "stack_popat", "stack_popatn", "stack_rem", "stack_resize", "stack_concat", "stack_assign"}
+    [] w \in {"stack_push", "stack_pushat", "stack_pop", "stack_popat", "stack_popatn", "stack_rem", "stack_resize", "stack_concat", "stack_assign", "stack_assignit"}
          -> {"ValueError"}                                                     \* a Tuple that is a stack object cannot reallocate its items: refused, items untouched
     [] w \in {"alien_c_str", "alien_c_int", "alien_c_float", "alien_call", "alien_start", "alien_stop", "alien_lock", "alien_sclose", "alien_deref",
                "alien_current", "alien_currentelem", "alien_sort", "alien_push", "alien_pop", "alien_concat", "alien_join"}
